@@ -60,8 +60,34 @@ def plan(tier, verif_seed):
         yield {"i": i, "seed": derive_seed(verif_seed, PROPERTY, i), "keep_sample": i < 2}
 
 
+def slow_sweep_pattern(rng):
+    """a sweep that lasts (it releases an expired instance A first) while a keep-alive / results request reaches a younger
+    instance B whose deadline falls inside the sweep: B's acknowledged access restarts its timer"""
+    cost = 700000
+    ta = rng.choice([5, 6])
+    tb = ta + rng.choice([2, 3, 4])
+    order = rng.choice(["AB", "AB", "BA", "ACB"])
+    events = []
+    tmo = {"A": {"seconds": ta}, "B": {"seconds": tb}, "C": {"hours": 1}}
+    for x in order:
+        events.append({"gap_us": 0, "op": "create", "timeout": tmo[x], "session": True, "via": "single"})
+    b = order.index("B")
+    lead = rng.choice([100000, 300000, 600000])          # B's deadline is `lead` after the pair starts, inside the sweep's 0.7 s
+    events.append({"gap_us": tb * 10**6 - lead, "op": "access", "inst": b, "kind": rng.choice(["keep_alive", "keep_alive", "session_results"]),
+                   "with_trigger": {"op": rng.choice(["metrics", "full_metrics"]), "trigger_first": rng.random() < 0.7,
+                                    "sched": {"kind": "random", "seed": rng.randrange(2**32), "p": rng.choice([0.0, 0.01, 0.03, 0.3])}}})
+    events.append({"gap_us": rng.choice([1000, 10**6]), "op": rng.choice(["metrics", "full_metrics"])})
+    events.append({"gap_us": 10**6, "op": "access", "inst": b, "kind": "session_results"})
+    return {"property": PROPERTY,
+            "config": {"adapter": rng.choice([None, "plain"]), "clock_ticks": None, "destroy_cost_us": cost,
+                       "model": {"template": "T1", "start": 1.0, "stop": 400.0, "dt": 1.0, "managers": {"smA": {"base": {}}}}},
+            "events": events}
+
+
 def generate(spec):
     rng = random.Random(spec["seed"])
+    if rng.random() < 0.08:
+        return slow_sweep_pattern(rng)
     ticks = None
     if rng.random() < 0.25:
         ticks = [rng.choice([0, 0, 1]) for _ in range(rng.choice([3, 5, 7]))]
@@ -290,7 +316,8 @@ def execute(case):
                         box["t"] = w.get("/" + wt["op"].replace("_", "-"), auth=False)
                     sched = Scheduler(make_policy(wt["sched"]), ("server/bptkServer.py",), log=None)
                     with sched:
-                        rr_ = run_tasks(sched, [c_trigger, c_access])
+                        # (the task created last runs first under the default policy)
+                        rr_ = run_tasks(sched, [c_access, c_trigger] if wt.get("trigger_first") else [c_trigger, c_access])
                     for x_ in rr_:
                         if x_ and x_[0] == "exc":
                             raise x_[1]
